@@ -1066,6 +1066,7 @@ func (c *Conn) handleBdat(arg string) {
 			dataResult <- err
 			r.CloseWithError(err)
 		}()
+		verifGate(c, "bdat-spawned")
 	}
 
 	chunk := io.LimitReader(c.text.R, int64(size))
